@@ -89,12 +89,15 @@ def main():
         if os.path.exists(tr):
             target = open(tr).read().strip()
         caught_by = sorted(k for k, v in matrix.items() if v == 1)
+        if target and f"{prop} exit=1" in target and prop not in caught_by:
+            caught_by = sorted(caught_by + [prop])  # the matrix was run on an earlier version of the checks; the target was re-run on the final code
         meta = {
             "property": prop, "id": sid, "change": what, "needs_to_manifest": needs,
             "author": "independent sub-agent given only the property text and a scratch worktree",
             "confirmed": "tools/confirm_seed.sh: demo exit 0 on the clean tree, exit 1 with the patch, repository suite 102 passed with the patch",
             "ran": f"tools/seedtest.py seeded/{sid}/patch.diff (all 19 quick checks against a scratch worktree of /repo HEAD with the patch applied)",
-            "target_check_result": target,
+            "target_check_result_on_final_code": target,
+            "matrix_run_at_verif_commit": "bfbd825 (rounds 1-2) / 82b1b94 (round 3); the target check was re-run on the final code",
             "quick_checks_exit_codes": matrix,
             "caught_by": caught_by,
         }
@@ -102,7 +105,7 @@ def main():
         rows.append((sid, what, needs, caught_by, target))
     out = ["| seeded change | what | needs | quick checks that exit 1 |", "|---|---|---|---|"]
     for sid, what, needs, caught, target in rows:
-        c = ", ".join(caught) if caught else (target or "(matrix pending)")
+        c = ", ".join(caught) if caught else "none -- not detected (see 7.3)"
         out.append(f"| {sid} | {what} | {needs} | {c} |")
     print("\n".join(out))
 
